@@ -1,6 +1,187 @@
 import CkbVerif.Driver.Util
+import CkbVerif.Model.Rules
+
+/-! Line-protocol driver for C03 (protocol: see harness/n03/src/c03.rs).
+
+```
+cfg k=v …                 consensus parameters that differ from the generated defaults   → ok
+genesis id=0 ts=… work=…   the genesis block, resets the chain                            → ok
+blk <id> k=v …            defines a block (header fields, body features, context oracles) → ok
+submit <id> now=<ms>      HeaderVerifier, then the chain service                          → <verdict> tip=<id> st=<status>
+```
+-/
 namespace CkbVerif.Driver.C03
-def main (_args : List String) : IO UInt32 := do
-  IO.eprintln "C03: model driver not implemented"
-  return 2
+open CkbVerif.Driver CkbVerif.Rules
+
+structure DS where
+  cfg : Cfg := {}
+  st : St := St.init {}
+  defs : List Blk := []
+
+def kv (ts : List String) (k : String) : Option String :=
+  ts.findSome? fun t =>
+    match t.splitOn "=" with
+    | [a, b] => if a = k then some b else none
+    | _ => none
+
+def kvNat (ts : List String) (k : String) (d : Nat) : Nat :=
+  match kv ts k with
+  | some v => (parseNat? v).getD d
+  | none => d
+
+def kvBool (ts : List String) (k : String) (d : Bool) : Bool :=
+  match kv ts k with
+  | some "1" => true
+  | some "0" => false
+  | _ => d
+
+def kvList (ts : List String) (k : String) : List Nat :=
+  match kv ts k with
+  | some v => (parseNatList? v).getD []
+  | none => []
+
+def parseEpoch (s : String) : Epoch :=
+  match (s.splitOn "/").map (fun x => (parseNat? x).getD 0) with
+  | [a, b, c] => ⟨a, b, c⟩
+  | _ => {}
+
+def kvEpoch (ts : List String) (k : String) : Epoch :=
+  match kv ts k with
+  | some v => parseEpoch v
+  | none => {}
+
+/-- `id:parent:number:epoch:target:props:phok:pow` -/
+def parseUncle (s : String) : Option Uncle :=
+  match s.splitOn ":" with
+  | [i, p, n, e, t, pr, ph, pw] => do
+    let i ← parseNat? i
+    let p ← parseNat? p
+    let n ← parseNat? n
+    let e ← parseNat? e
+    let t ← parseNat? t
+    let pr ← parseNatList? pr
+    pure { id := i, parent := p, number := n, epochNumber := e, target := t, proposals := pr,
+           proposalsHashOk := ph == "1", powOk := pw == "1" }
+  | _ => none
+
+def kvUncles (ts : List String) : List Uncle :=
+  match kv ts "uncles" with
+  | some "-" => []
+  | some v => (v.splitOn ";").filterMap parseUncle
+  | none => []
+
+def parseBlk (id : Nat) (ts : List String) : Blk :=
+  { id := id
+    parent := kvNat ts "parent" 0
+    number := kvNat ts "num" 0
+    epoch := kvEpoch ts "ep"
+    ts := kvNat ts "ts" 0
+    target := kvNat ts "tgt" 0
+    work := kvNat ts "work" 1
+    powOk := kvBool ts "pow" true
+    proposals := kvList ts "props"
+    bytes := kvNat ts "bytes" 0
+    nCellbase := kvNat ts "ncb" 1
+    firstIsCellbase := kvBool ts "cbfirst" true
+    cbOutputs := kvNat ts "cbouts" 1
+    cbOutputsData := kvNat ts "cbdatas" 1
+    cbDataEmpty := kvBool ts "cbdataempty" true
+    cbWitnessOk := kvBool ts "cbwit" true
+    cbNoType := kvBool ts "cbnotype" true
+    cbLockOk := kvBool ts "cblock" true
+    cbSince := kvNat ts "cbsince" 0
+    txIds := kvList ts "txs"
+    txRootOk := kvBool ts "txroot" true
+    proposalsHashOk := kvBool ts "phash" true
+    txsNonCtxOk := kvBool ts "txsnc" true
+    uncles := kvUncles ts
+    committed := kvList ts "commit"
+    extraFields := kvNat ts "xf" 1
+    extLen := match kv ts "extlen" with
+      | some "none" => none
+      | some v => parseNat? v
+      | none => none
+    rootOk := kvBool ts "root" true
+    extraHashOk := kvBool ts "xhash" true
+    resolveOk := kvBool ts "resolve" true
+    expEpoch := kvEpoch ts "xep"
+    expTarget := kvNat ts "xtgt" 0
+    daoCalcOk := kvBool ts "daocalc" true
+    daoEq := kvBool ts "dao" true
+    rewardInsufficient := kvBool ts "rewlack" false
+    cbCapacity := kvNat ts "cbcap" 0
+    expReward := kvNat ts "xrew" 0
+    cbLockEq := kvBool ts "cblockeq" true
+    txsOk := kvBool ts "txsok" true
+    cycles := kvNat ts "cycles" 0 }
+
+def errName : Err → String
+  | .powInvalid => "pow" | .unknownParent => "badparent" | .parentInvalid => "badparent" | .orphan => "badparent"
+  | .number => "number" | .epochMalformed => "epoch-malformed" | .epochNonContinuous => "epoch-noncontinuous"
+  | .timeTooOld => "time-too-old" | .timeTooNew => "time-too-new"
+  | .proposalsLimit => "proposals-limit" | .blockBytes => "block-bytes"
+  | .cbQuantity => "cb-quantity" | .cbPosition => "cb-position" | .cbOutputQuantity => "cb-output-quantity"
+  | .cbOutputData => "cb-output-data" | .cbWitness => "cb-witness" | .cbTypeScript => "cb-type-script"
+  | .cbOutputLock => "cb-output-lock" | .cbInput => "cb-input"
+  | .txDuplicate => "tx-duplicate" | .proposalDuplicate => "proposal-duplicate" | .txRoot => "tx-root"
+  | .proposalsHash => "proposals-hash" | .txsNonContextual => "txs-noncontextual"
+  | .resolve => "resolve" | .epochNumberMismatch => "epoch-mismatch" | .targetMismatch => "target-mismatch"
+  | .unclesOverCount => "uncles-overcount" | .uncleTarget => "uncle-target" | .uncleEpoch => "uncle-epoch"
+  | .uncleNumber => "uncle-number" | .uncleDescendant => "uncle-descendant" | .uncleDuplicate => "uncle-duplicate"
+  | .uncleDoubleInclusion => "uncle-double-inclusion" | .uncleProposalsLimit => "uncle-proposals-limit"
+  | .uncleProposalsHash => "uncle-proposals-hash" | .uncleProposalDuplicate => "uncle-proposal-duplicate"
+  | .unclePow => "pow"
+  | .commitAncestorNotFound => "commit-ancestor" | .commitInvalid => "commit-invalid"
+  | .daoCalc => "dao-calc" | .invalidDao => "dao" | .rewardTarget => "reward-target" | .rewardAmount => "reward-amount"
+  | .noExtension => "no-extension" | .unknownFields => "unknown-fields" | .emptyExtension => "empty-extension"
+  | .extensionTooLong => "extension-too-long" | .invalidExtension => "invalid-extension"
+  | .invalidChainRoot => "chain-root" | .invalidExtraHash => "extra-hash"
+  | .txs => "txs" | .exceededCycles => "cycles"
+
+def resName : Res → String
+  | .attached => "attached"
+  | .sideStored => "stored"
+  | .known => "known"
+  | .rejected e => "err " ++ errName e
+
+def statusOf (s : St) (id : Nat) : String :=
+  if s.verified.contains id then "valid"
+  else if s.invalid.contains id then "invalid"
+  else if (findBlk s.stored id).isSome then "stored"
+  else "unknown"
+
+def parseCfg (c : Cfg) (ts : List String) : Cfg :=
+  { c with
+    medianCount := kvNat ts "median" c.medianCount
+    maxUncles := kvNat ts "maxuncles" c.maxUncles
+    maxProposals := kvNat ts "maxprops" c.maxProposals
+    maxBytes := kvNat ts "maxbytes" c.maxBytes
+    maxCycles := kvNat ts "maxcycles" c.maxCycles
+    win := ⟨kvNat ts "close" c.win.close, kvNat ts "far" c.win.far⟩
+    mmrActive := kvBool ts "mmr" c.mmrActive }
+
+def step (s : DS) (ts : List String) : DS × String :=
+  match ts with
+  | "cfg" :: rest => ({ s with cfg := parseCfg {} rest }, "ok")
+  | "genesis" :: rest =>
+    let g := parseBlk (kvNat rest "id" 0) rest
+    ({ s with st := St.init g, defs := [g] }, "ok")
+  | "blk" :: id :: rest =>
+    match parseNat? id with
+    | some id => ({ s with defs := parseBlk id rest :: s.defs }, "ok")
+    | none => (s, "bad-op")
+  | ["submit", id, now] =>
+    match parseNat? id, kv [now] "now" with
+    | some id, some nowv =>
+      match s.defs.find? (fun b => b.id == id), parseNat? nowv with
+      | some b, some nw =>
+        let (st', r) := submit s.cfg s.st nw b
+        ({ s with st := st' }, s!"{resName r} tip={st'.tip} st={statusOf st' id}")
+      | _, _ => (s, "bad-op")
+    | _, _ => (s, "bad-op")
+  | _ => (s, "bad-op")
+
+def main (_args : List String) : IO UInt32 :=
+  runLines ({} : DS) step
+
 end CkbVerif.Driver.C03
